@@ -4,6 +4,7 @@ import (
 	"context"
 	"errors"
 	"fmt"
+	"github.com/multiformats/go-multiaddr"
 	"strings"
 
 	"github.com/ipfs/go-cid"
@@ -131,6 +132,21 @@ func runC16(r *simkit.Run, c Cfg) {
 	if filter {
 		opts = append(opts, announce.WithAllowPeer(func(p peer.ID) bool { return p != denied.ID }))
 	}
+	// in the random runs the announcements carry addresses of every form
+	// the address menu of C09 has, and address filtering is on in half of
+	// them: whatever looks at an address on the way returns
+	var addrsA, addrsB []multiaddr.Multiaddr
+	if c.Case < 0 {
+		if tp.Chance(1, 2, "filterIPs") {
+			opts = append(opts, announce.WithFilterIPs(true))
+		}
+		for i, n := 0, tp.Choose(3, "naddrsA"); i < n; i++ {
+			addrsA = append(addrsA, must(multiaddr.NewMultiaddr(c09Addrs[tp.Choose(len(c09Addrs), "addrA")].s)))
+		}
+		for i, n := 0, tp.Choose(3, "naddrsB"); i < n; i++ {
+			addrsB = append(addrsB, must(multiaddr.NewMultiaddr(c09Addrs[tp.Choose(len(c09Addrs), "addrB")].s)))
+		}
+	}
 	rc := must(announce.NewReceiver(nil, "", opts...))
 
 	// Build the scripts.
@@ -174,13 +190,13 @@ func runC16(r *simkit.Run, c Cfg) {
 				case rcOpClose:
 					call.err = rc.Close()
 				case rcOpDirectA:
-					call.err = rc.Direct(bg, cidA, peer.AddrInfo{ID: allowed.ID})
+					call.err = rc.Direct(bg, cidA, peer.AddrInfo{ID: allowed.ID, Addrs: addrsA})
 				case rcOpDirectB:
-					call.err = rc.Direct(bg, cidB, peer.AddrInfo{ID: allowed.ID})
+					call.err = rc.Direct(bg, cidB, peer.AddrInfo{ID: allowed.ID, Addrs: addrsB})
 				case rcOpDirectACancel:
 					var cctx context.Context
 					cctx, call.cancel = context.WithCancel(bg)
-					call.err = rc.Direct(cctx, cidA, peer.AddrInfo{ID: allowed.ID})
+					call.err = rc.Direct(cctx, cidA, peer.AddrInfo{ID: allowed.ID, Addrs: addrsA})
 					call.cancel()
 				case rcOpDirectAnon:
 					call.err = rc.Direct(bg, cidB, peer.AddrInfo{})
